@@ -259,6 +259,19 @@ func subReader() mon.Sub {
 					rd.Reset(xport.NewChunker(masked, plan), key)
 					got = got[:0]
 				}
+				if did || resetAt < 0 {
+					if c.Rng.Intn(4) == 0 {
+						// the rest of the stream is drained through io.Copy (which would pick an io.WriterTo
+						// fast path if the reader had one): the running offset must carry on
+						var rest bytes.Buffer
+						if _, err := io.Copy(&rest, rd); err != nil {
+							c.Fail("reader/error", "io.Copy from a CipherReader failed: "+err.Error(), nil)
+							return
+						}
+						got = append(got, rest.Bytes()...)
+						break
+					}
+				}
 				k, err := rd.Read(buf)
 				got = append(got, buf[:k]...)
 				if err == io.EOF {
@@ -306,8 +319,26 @@ func subWriter() mon.Sub {
 			w := wsutil.NewCipherWriter(rec, key)
 			pos := 0
 			var accepted []byte
+			viaCopy := 0
 			for _, k := range parts {
 				p := append([]byte(nil), src[pos:pos+k]...)
+				if !short && c.Rng.Intn(3) == 0 {
+					// the part arrives through io.Copy: whatever optional fast path (io.ReaderFrom on the
+					// writer, io.WriterTo on the source) gets picked, the running offset must carry on
+					var from io.Reader = xport.NewChunker(p, xport.Plans(c.Rng.Int63(), nil)[c.Rng.Intn(11)])
+					if c.Rng.Intn(3) == 0 {
+						from = bytes.NewReader(p)
+					}
+					m, err := io.Copy(w, from)
+					if err != nil || int(m) != len(p) {
+						c.Fail("writer/copy", fmt.Sprintf("io.Copy into a CipherWriter over a healthy destination returned %d, %v for %d bytes", m, err, len(p)), nil)
+						return
+					}
+					accepted = append(accepted, p...)
+					pos += k
+					viaCopy++
+					continue
+				}
 				for len(p) > 0 || k == 0 {
 					keep := append([]byte(nil), p...)
 					m, err := w.Write(p)
@@ -341,8 +372,8 @@ func subWriter() mon.Sub {
 				c.Fail("writer/lost", "not all bytes were accepted", nil)
 				return
 			}
-			c.Classf("n=%s parts=%d short=%v", lenClass(n), min(len(parts), 6), short)
-			c.Sample(map[string]interface{}{"len": n, "parts": parts, "short_write_at_call": rec.FailAt, "short_n": rec.ShortN})
+			c.Classf("n=%s parts=%d short=%v copy=%v", lenClass(n), min(len(parts), 6), short, viaCopy > 0)
+			c.Sample(map[string]interface{}{"len": n, "parts": parts, "short_write_at_call": rec.FailAt, "short_n": rec.ShortN, "parts_via_io_copy": viaCopy})
 		},
 	}
 }
